@@ -269,6 +269,11 @@ func RangeArg(parts []Interval, fd int, baseMin, baseMax *big.Int, useKeywords f
 		}
 		if p.Lo.Cmp(p.Hi) == 0 && lo != "min" && hi != "max" {
 			out = append(out, lo)
+		} else if p.Lo.Cmp(p.Hi) == 0 && lo == "min" && useKeywords() {
+			// range-part = range-boundary, and a boundary may be a keyword: a part that is "min" alone
+			out = append(out, "min")
+		} else if p.Lo.Cmp(p.Hi) == 0 && hi == "max" && useKeywords() {
+			out = append(out, "max")
 		} else {
 			out = append(out, fmt.Sprintf("%s..%s", lo, hi))
 		}
